@@ -202,6 +202,19 @@ CHECKS = {
             "References made from criteria and length specifications are not part of the claim; RecursionError counts "
             "as a rejection.",
             "DESIGN.md 3/C17"),
+    "C11": ("exploration",
+            "Hypothesis-generated histories: several generators over sub-sequences of a packet pool, interleaved "
+            "next() schedules and option combinations; metamorphic oracle (stream == concatenation of singletons) "
+            "checked after every step, plus definition snapshots",
+            "Up to four generators sharing one definition (all combinations of parse_bad_pkts, "
+            "yield_unrecognized_packet_errors, ccsds_headers_only; bytes and BytesIO sources) are advanced in a drawn "
+            "interleaving of up to 60 steps over streams mixing recognisable, unrecognisable and wrong-length packets; "
+            "after each step the items produced so far must equal what fresh generators over the single packets "
+            "yield, every yielded object must be new (the harness scribbles on it afterwards), and the definition's "
+            "structural dump and serialisation must equal the snapshots taken before parsing. Sampled.",
+            "A decoding error identical in stream and singleton runs is out of reach here (C01 judges singletons "
+            "against the reference decoder).",
+            "DESIGN.md 3/C11"),
 }
 
 PENDING_REASON = "check not built yet in this round (planned, see DESIGN.md section 3); nothing is claimed for it"
